@@ -12,7 +12,7 @@ trap 'git -C /repo checkout -- . >/dev/null 2>&1' EXIT
 run() { # prop patch
   local P=$1 patch=$2
   git -C /repo apply "/verif/$patch" || { echo "SELFTEST-ERROR $patch does not apply"; bad=1; return; }
-  out=$(./bin/hvc check $P 2>&1); rc=$?
+  out=$(HVC_NO_EVIDENCE=1 ./bin/hvc check $P 2>&1); rc=$?
   git -C /repo checkout -- .
   v=$(echo "$out" | grep -c "^VIOLATION property=$P ")
   if [ $rc -eq 1 ] && [ $v -ge 1 ]; then
